@@ -37,7 +37,7 @@ def main():
         tier = sys.argv[sys.argv.index('--tier') + 1]
     if '--extra' in sys.argv:
         extra = sys.argv[sys.argv.index('--extra') + 1].split(',')
-    src = '/tmp/seed/%s.out' % prop
+    src = '/tmp/seed/%s.out%s' % (prop, '' if letter in 'AB' else '2')
     patch = os.path.join(src, 'patch_%s.diff' % letter)
     demo = os.path.join(src, 'demo_%s.py' % letter)
     meta_in = {}
@@ -81,6 +81,22 @@ def main():
                     tier=tier, exit=rc, detected=rc == 1,
                     violation_signatures=sigs[:12],
                     summary=out.splitlines()[-1][:300] if out else '')
+                # every violation is a replayable artefact: the first replay
+                # file must fail again on the changed tree and pass on /repo
+                rp = [l.split('replay=')[1].strip() for l in out.splitlines()
+                      if l.startswith('VIOLATION') and 'replay=' in l]
+                if rp and os.path.exists(rp[0]):
+                    keep = rp[0] + '.keep'
+                    shutil.copy(rp[0], keep)
+                    r1, o1 = sh([os.path.join(HERE, 'check'), p, '--replay',
+                                 keep], env=dict(os.environ, VERIF_REPO=wt),
+                                cwd=HERE)
+                    r2, o2 = sh([os.path.join(HERE, 'check'), p, '--replay',
+                                 keep], cwd=HERE)
+                    os.unlink(keep)
+                    res['checks'][p]['replay'] = dict(
+                        on_changed_tree_exit=r1, on_repo_exit=r2,
+                        ok=(r1 != 0 and r2 == 0))
         confirmed = (res.get('patch_applies') and
                      res['demo_unchanged']['exit'] == 0 and
                      res.get('demo_changed', {}).get('exit') not in (0, None)
@@ -108,6 +124,8 @@ def main():
         demo_changed=res.get('demo_changed', {}).get('exit'),
         tests=res.get('tests_with_change', {}).get('stable_pass_intact'),
         detected={p: c['detected'] for p, c in res.get('checks', {}).items()},
+        replay={p: c.get('replay', {}).get('ok') for p, c in
+                res.get('checks', {}).items()},
         sigs=[s[:110] for s in res.get('checks', {}).get(prop, {}).get(
             'violation_signatures', [])][:4],
         what=meta_in.get('what', '')[:200]), indent=1))
